@@ -645,27 +645,30 @@ theorem retryLoop_ok (c : Cfg) (s s1 : St) (size fuel : Nat) (post : Meta → M 
     retryLoop c size fuel post (n + 1) i s = (do let m' ← post m; pure (.ok m', s1)) := by
   simp only [retryLoop, hsp, bind, Except.bind]
 
+/-- the retry loop on a slow path that fails without changing the state: the loop index stays at or below
+    `last = c.retries - 1` (truncated subtraction, `saturating_sub(1)` in the code — with `retries = 0` and with
+    `retries = 1` the loop gives up at `i = 0`), the measure is `last - i` -/
 theorem retryLoop_err (c : Cfg) (s : St) (size fuel : Nat) (post : Meta → M Meta) (e : Err)
-    (hr : c.kind ≠ .none → 1 ≤ c.retries ∧ c.retries ≤ 255)
+    (hr : c.kind ≠ .none → c.retries ≤ 255)
     (hsp : slowPath c s size fuel = .ok (.error e, s)) :
-    ∀ n i, i + 1 ≤ c.retries ∨ c.kind = .none → c.retries - i ≤ n → 1 ≤ n →
+    ∀ n i, i ≤ c.retries - 1 ∨ c.kind = .none → c.retries - 1 - i < n →
       retryLoop c size fuel post n i s = .ok (.error e, s) := by
   intro n
   induction n with
-  | zero => intro i _ _ h; omega
+  | zero => intro i _ h; omega
   | succ n ih =>
-    intro i hi hn _
+    intro i hi hn
     simp only [retryLoop, hsp, bind, Except.bind]
     by_cases hk : c.kind = .none
     · rw [if_pos hk]; rfl
     · rw [if_neg hk]
       have hr := hr hk
-      have hi : i + 1 ≤ c.retries := by rcases hi with hi | hi; exact hi; exact absurd hi hk
+      have hi : i ≤ c.retries - 1 := by rcases hi with hi | hi; exact hi; exact absurd hi hk
       by_cases hl : i = c.retries - 1
       · rw [if_pos hl]; rfl
       · rw [if_neg hl, if_pos (by omega)]
         simp only [pure, Except.pure]
-        exact ih (i + 1) (Or.inl (by omega)) (by omega) (by omega)
+        exact ih (i + 1) (Or.inl (by omega)) (by omega)
 
 theorem slowEntry_refines (h : CInv c s free lives) (hro : c.ro = false) (size fuel : Nat) (h0 : size ≠ 0)
     (hfuel : free.length + 2 ≤ fuel) (post : Meta → M Meta) (postS : Meta → Meta)
@@ -686,12 +689,7 @@ theorem slowEntry_refines (h : CInv c s free lives) (hro : c.ro = false) (size f
       split
       · rename_i hs
         exact retryLoop_err c s size fuel post e (fun _ => h.retriesOK hs) e1 300 0
-          (by by_cases hk : c.kind = .none
-              · exact Or.inr hk
-              · exact Or.inl (by have := h.retriesOK hs; omega))
-          (by by_cases hk : c.kind = .none
-              · have := h.retriesOK hs; omega
-              · have := h.retriesOK hs; omega) (by omega)
+          (Or.inl (Nat.zero_le _)) (by have := h.retriesOK hs; omega)
       · simp only [e1, bind, Except.bind, pure, Except.pure]
     rw [hent]
     exact ⟨s, rfl, StepOK.rfl' c s free lives, rfl⟩
